@@ -13,6 +13,14 @@
 //     another depth than they were allocated at: the same decision list plus poisoning - when the recording allocator's
 //     free_memory is handed a released block, its first <user size> bytes must all have been overwritten (0xCD).
 //
+// Extension (seeded change C06-s5, coverage): realloc steps in both kinds - in place or moving, through a PlatformSpecificRealloc
+// seam that works on the recording allocators' table, with the faults "platform realloc fails" and "the new separate record
+// cannot be allocated"; realloc of a live / foreign / interior / already released / NULL address with any family and chain.
+// A realloc is judged by the same decision list as a release; after a FAILED realloc the old block is still outstanding
+// with its old family, layout and guard bytes.  Kind A also uses the allocMemory / deallocMemory overloads without a
+// location and a failing record allocation in allocMemory; kind B every form of operator new / delete (plain, debug with
+// size_t and int line, nothrow, sized, placement) and cpputest_realloc_location.
+//
 // The recording allocators only RECORD releases (real free happens at the end of the case), so stale addresses stay
 // non-outstanding for the whole case and nothing is freed twice whatever the detector does after reporting.
 #include <map>
@@ -21,6 +29,7 @@
 #include <functional>
 #include "common.h"        // (std headers first: common.h brings in the `new` macro)
 #include "CppUTest/TestHarness_c.h"
+#include <new>
 #undef new
 #undef malloc
 #undef free
@@ -39,15 +48,36 @@ struct FreeEv { char* p; size_t handed; size_t req; size_t cd_prefix; };
 Ent g_ent[ENT_MAX]; int g_nent;
 FreeEv g_fev[EV_MAX]; int g_nfev;
 int g_bogus_free; char* g_bogus_ptr; bool g_overflow;
+bool g_fail_record_alloc;        // one-shot fault: the next allocation of a separate bookkeeping record returns NULL
+bool g_realloc_fail, g_realloc_inplace;     // PlatformSpecificRealloc seam: fail / keep the address when the block is large enough
+void* (*g_saved_platform_realloc)(void*, size_t);
 
 void rec_reset() {
     for (int i = 0; i < g_nent; i++) ::free(g_ent[i].p);
     g_nent = 0; g_nfev = 0; g_bogus_free = 0; g_bogus_ptr = nullptr; g_overflow = false;
+    g_fail_record_alloc = false; g_realloc_fail = false; g_realloc_inplace = false;
+}
+// what the detector uses to resize the underlying block (it bypasses the allocator): works on the same table, never frees for real
+void* rec_realloc(void* memory, size_t size) {
+    if (g_realloc_fail) return NULLPTR;
+    int at = -1;
+    if (memory) {
+        for (int i = g_nent - 1; i >= 0; i--) if (g_ent[i].p == (char*)memory && !g_ent[i].freed) { at = i; break; }
+        if (at < 0) { g_bogus_free++; g_bogus_ptr = (char*)memory; return NULLPTR; }
+        if (g_realloc_inplace && size <= g_ent[at].req) { g_ent[at].req = size; return memory; }   // shrinking in place; req only ever shrinks, so it stays a valid bound
+    }
+    char* q = (char*)::malloc(size ? size : 1);
+    memset(q, 0x5A, size ? size : 1);
+    if (at >= 0) { size_t keep = g_ent[at].req < size ? g_ent[at].req : size; memcpy(q, memory, keep); g_ent[at].freed = true; }   // the old memory stays allocated until the end of the case
+    if (g_nent < ENT_MAX) { g_ent[g_nent].p = q; g_ent[g_nent].req = size; g_ent[g_nent].freed = false; g_nent++; }
+    else g_overflow = true;
+    return q;
 }
 
 struct Rec : TestMemoryAllocator {
     Rec(const char* n, const char* a, const char* f) : TestMemoryAllocator(n, a, f) {}
-    char* alloc_memory(size_t size, const char*, size_t) CPPUTEST_OVERRIDE {
+    char* alloc_memory(size_t size, const char* file, size_t) CPPUTEST_OVERRIDE {
+        if (g_fail_record_alloc && file && strcmp(file, "MemoryLeakNode") == 0) { g_fail_record_alloc = false; return NULLPTR; }
         char* p = (char*)::malloc(size ? size : 1);
         memset(p, 0x5A, size ? size : 1);
         if (g_nent < ENT_MAX) { g_ent[g_nent].p = p; g_ent[g_nent].req = size; g_ent[g_nent].freed = false; g_nent++; }
@@ -146,6 +176,7 @@ struct GlobalsGuard {     // whatever happens in a case, the process-wide seams 
         MemoryLeakWarningPlugin::turnOffNewDeleteOverloads();
         MemoryLeakWarningPlugin::setGlobalDetector(g_saved_detector, g_saved_reporter);
         setCurrentNewAllocatorToDefault(); setCurrentNewArrayAllocatorToDefault(); setCurrentMallocAllocatorToDefault();
+        PlatformSpecificRealloc = g_saved_platform_realloc;
     }
 };
 
@@ -180,6 +211,7 @@ int run_local(Reader& r, bool& nontrivial, std::string& desc) {
     MemoryLeakWarningPlugin::setGlobalDetector(&inner, &g_inner_rep);
     MemoryLeakDetector det(&g_rep);
     det.enable();
+    PlatformSpecificRealloc = rec_realloc;
     MemoryAccountant accountant;
     // wrapper objects of this case; a chain shares the objects of its inner part with every chain that has the same inner part
     std::map<std::tuple<int, int, int, int>, TestMemoryAllocator*> pool;
@@ -205,7 +237,7 @@ int run_local(Reader& r, bool& nontrivial, std::string& desc) {
         int before = g_rep.n;
         int expected = NONE;
         std::string what;
-        uint32_t kind = r.below(10);           // 0-2 alloc, 3-4 write, 5-7 release, 8 type checking, 9 period / buffer
+        uint32_t kind = r.below(12);           // 0-2 alloc, 3-4 write, 5-7 release, 8 type checking, 9 period / buffer, 10-11 realloc
         if (kind >= 3 && kind <= 4) {
             std::vector<int> live; for (size_t i = 0; i < blocks.size(); i++) if (blocks[i].live) live.push_back((int)i);
             if (live.empty()) kind = 0;
@@ -229,7 +261,18 @@ int run_local(Reader& r, bool& nontrivial, std::string& desc) {
             b.fam = (int)r.below(NFAM); b.chain = gen_chain(r);
             b.size = gen_size(r, 300); b.sep = r.flag(); b.live = true; memcpy(b.guard, "BAS", 3);
             const char* file = FILES[r.below(2)]; size_t line = r.below(200);
-            b.p = det.allocMemory(allocator_of(b.fam, b.chain), b.size, file, line, b.sep);
+            uint32_t form = r.below(8);      // 0-5 with location, 6 the overload without file and line, 7 (separate record only) the record allocation fails
+            if (form == 7 && b.sep) {
+                g_fail_record_alloc = true;
+                char* q = det.allocMemory(allocator_of(b.fam, b.chain), b.size, file, line, b.sep);
+                g_fail_record_alloc = false;
+                what = sfmt("alloc %s size=%zu separate-node, record allocation fails", chain_name(b.fam, b.chain, fam_name).c_str(), b.size);
+                verif::cls("alloc:record-allocation-fails");
+                V_CHECK(q == NULLPTR, "C06:alloc-with-failed-record-not-null", "%s: a block came back", what.c_str());
+                goto judged;
+            }
+            b.p = form == 6 ? det.allocMemory(allocator_of(b.fam, b.chain), b.size, b.sep) : det.allocMemory(allocator_of(b.fam, b.chain), b.size, file, line, b.sep);
+            if (form == 6) verif::cls("alloc:overload-without-location");
             V_CHECK(b.p != NULLPTR, "C06:alloc-null", "allocMemory(%s, %zu) returned NULL", chain_name(b.fam, b.chain, fam_name).c_str(), b.size);
             memset(b.p, 0x11 + (int)(blocks.size() & 7), b.size);
             blocks.push_back(b);
@@ -273,7 +316,8 @@ int run_local(Reader& r, bool& nontrivial, std::string& desc) {
             what = sfmt("release %s addr=%s%s as %s%s%s -> expect %s", tk, hit ? sfmt("#%d", (int)(hit - &blocks[0])).c_str() : (addr ? "?" : "NULL"),
                         hit && memcmp(hit->guard, "BAS", 3) ? "(guard damaged)" : "", "", chain_name(relfam, rel, fam_rel).c_str(), checking ? "" : " [type checking off]", cat_name(expected));
             int bogus_before = g_bogus_free, fev_before = g_nfev;
-            det.deallocMemory(allocator_of(relfam, rel), addr, file, line, sep);
+            if (r.chance(1, 6)) { det.deallocMemory(allocator_of(relfam, rel), addr, sep); verif::cls("release:overload-without-location"); }
+            else det.deallocMemory(allocator_of(relfam, rel), addr, file, line, sep);
             if (hit) hit->live = false;
             verif::cls("release"); verif::cls((std::string("release:target-") + tk).c_str());
             verif::cls((std::string("expect:") + cat_name(expected)).c_str());
@@ -291,6 +335,64 @@ int run_local(Reader& r, bool& nontrivial, std::string& desc) {
                 for (int i = fev_before; i < g_nfev; i++) if (g_fev[i].p == addr) handed = true;
                 V_CHECK(!handed, "C06:non-outstanding-address-released-to-allocator", "%s: address was passed on to the allocator", what.c_str());
             }
+        } else if (kind >= 10) {
+            char* addr = NULLPTR; int target = -1; const char* tk = "null";
+            std::vector<int> live, dead;
+            for (size_t i = 0; i < blocks.size(); i++) (blocks[i].live ? live : dead).push_back((int)i);
+            // a realloc resizes the underlying block behind the allocator's back (PlatformSpecificRealloc): a block that a
+            // MemoryLeakAllocator layer nested in the global detector is not a candidate, and the realloc's own chain has accounting layers only
+            { std::vector<int> plain; for (int i : live) if (mla_count(blocks[(size_t)i].chain) == 0) plain.push_back(i); live.swap(plain); }
+            uint32_t t = r.below(10);     // 0-5 live block, 6 already released, 7 interior, 8 foreign, 9 NULL (= an allocation)
+            if (t <= 5 && !live.empty()) { target = live[r.below((uint32_t)live.size())]; addr = blocks[(size_t)target].p; tk = "live"; }
+            else if (t == 6 && !dead.empty()) { addr = blocks[(size_t)dead[r.below((uint32_t)dead.size())]].p; tk = "already-released"; }
+            else if (t == 7 && !live.empty()) { Blk& b = blocks[(size_t)live[r.below((uint32_t)live.size())]]; addr = b.p + 1 + r.below((uint32_t)b.size + 2); tk = "interior"; }
+            else if (t == 8 || (t <= 7)) { if (r.flag()) addr = g_foreign + r.below(64); else addr = g_static_foreign + r.below(64); tk = "foreign"; }
+            int relfam = (int)r.below(NFAM); Chain rel = gen_chain(r); rel.bits = 0;
+            bool sep = r.flag();
+            size_t newsize = gen_size(r, 300);
+            bool inplace = r.flag();
+            int fault = r.below(6) == 1 ? 1 + (int)r.below(2) : 0;        // 1: the platform realloc fails, 2: the new separate record cannot be allocated
+            if (target >= 0) {
+                Blk& b = blocks[(size_t)target];
+                if (r.chance(1, 2)) relfam = b.fam;
+                sep = b.sep;                                             // node layout is a property of the block
+                if (r.chance(1, 3)) newsize = r.flag() ? b.size : (b.size ? r.below((uint32_t)b.size) : 0);   // same size / shrinking (in place is possible)
+            }
+            if (fault == 2 && !sep) fault = 1;
+            const char* file = FILES[1 + r.below(2)]; size_t line = r.below(200);
+            int hit = -1;
+            if (addr) for (size_t i = 0; i < blocks.size(); i++) if (blocks[i].live && blocks[i].p == addr) hit = (int)i;
+            expected = addr ? expect_release(hit >= 0 ? &blocks[(size_t)hit] : nullptr, checking, relfam) : NONE;
+            if ((addr && hit < 0) || fault || expected != NONE) nontrivial = true;
+            what = sfmt("realloc %s addr=%s%s to %zu bytes as %s%s, %s%s -> expect %s", tk, hit >= 0 ? sfmt("#%d", hit).c_str() : (addr ? "?" : "NULL"),
+                        hit >= 0 && memcmp(blocks[(size_t)hit].guard, "BAS", 3) ? "(guard damaged)" : "", newsize, chain_name(relfam, rel, fam_name).c_str(), checking ? "" : " [type checking off]",
+                        inplace ? "in place if it fits" : "moving", fault == 1 ? ", platform realloc fails" : fault == 2 ? ", record allocation fails" : "", cat_name(expected));
+            int bogus_before = g_bogus_free;
+            g_realloc_inplace = inplace; g_realloc_fail = fault == 1; g_fail_record_alloc = fault == 2;
+            char* q = det.reallocMemory(allocator_of(relfam, rel), addr, newsize, file, line, sep);
+            g_realloc_inplace = false; g_realloc_fail = false; g_fail_record_alloc = false;
+            verif::cls("realloc"); verif::cls((std::string("realloc:target-") + tk).c_str());
+            verif::cls((std::string("expect:") + cat_name(expected)).c_str());
+            if (fault) verif::cls(fault == 1 ? "realloc:platform-realloc-fails" : "realloc:record-allocation-fails");
+            if (hit >= 0 && fault) verif::cls(sep ? "realloc:fault-on-block-with-separate-record" : "realloc:fault-on-block-with-inline-record");
+            V_CHECK(g_bogus_free == bogus_before, "C06:foreign-address-handed-to-allocator",
+                    "%s: the underlying allocator / platform realloc was handed %p, which it never allocated or already got back", what.c_str(), (void*)g_bogus_ptr);
+            bool want_block = (!addr || hit >= 0) && !fault;
+            V_CHECK((q != NULLPTR) == want_block, "C06:realloc-result", "%s: returned %s", what.c_str(), q ? "a block" : "NULL");
+            if (q) {
+                memset(q, 0x21 + (int)(blocks.size() & 7), newsize);
+                if (hit >= 0) {
+                    Blk old = blocks[(size_t)hit];
+                    Blk& b = blocks[(size_t)hit];
+                    b.p = q; b.size = newsize; b.fam = relfam; b.chain = rel; memcpy(b.guard, "BAS", 3);     // a new record: the realloc's family and chain
+                    verif::cls(q == old.p ? "realloc:in-place" : "realloc:moved");
+                    if (q != old.p) { old.live = false; blocks.push_back(old); }                                    // the old address is stale now
+                } else {
+                    Blk b; b.p = q; b.size = newsize; b.fam = relfam; b.chain = rel; b.sep = sep; b.live = true; memcpy(b.guard, "BAS", 3);
+                    blocks.push_back(b); verif::cls("realloc:NULL-as-allocation");
+                }
+            }
+            // a failed realloc leaves the model untouched: the old block must still be outstanding, with its old family, layout and guard bytes
         } else if (kind == 8) {
             checking = !r.flag();          // 0 -> on
             if (checking) det.enableAllocationTypeChecking(); else det.disableAllocationTypeChecking();
@@ -306,6 +408,7 @@ int run_local(Reader& r, bool& nontrivial, std::string& desc) {
             }
             verif::cls("period-op");
         }
+        judged:
         if (verif::g_explain) fprintf(stderr, "  A%02d %s\n", nops, what.c_str());
         if (desc.size() < 600) desc += what + "; ";
         int got = g_rep.n - before;
@@ -327,10 +430,13 @@ int run_local(Reader& r, bool& nontrivial, std::string& desc) {
 // mode B: global entry points inside an ON window; decoded completely first, model evaluated at decode time
 // ---------------------------------------------------------------------------------------------------------------
 enum { B_SLOTS = 8, B_OPS = 24 };
-enum BKind { B_ALLOC, B_WRITE, B_RELEASE_LIVE, B_RELEASE_NULL, B_RELEASE_STALE, B_RELEASE_INTERIOR, B_DEPTH, B_NOP };
+enum BKind { B_ALLOC, B_WRITE, B_RELEASE_LIVE, B_RELEASE_NULL, B_RELEASE_STALE, B_RELEASE_INTERIOR, B_DEPTH, B_REALLOC, B_NOP };
+enum BForm { BF_PLAIN = 0, BF_DEBUG_SIZET, BF_DEBUG_INT, BF_NOTHROW, BF_SIZED };      // which overload of operator new / delete is called
+const char* bform_name[] = {"", " (file,size_t line)", " (file,int line)", " nothrow", " sized"};
 TestMemoryAllocator* g_blevel[MAXDEPTH + 1][3];    // current-allocator candidates of kind B: [nesting depth][family]
 struct BOp {
-    int kind, slot, fam, relfam; size_t size, off; unsigned char val; bool debug_new; const char* file; size_t line;
+    int kind, slot, fam, relfam, form, fault; size_t size, off; unsigned char val; bool inplace; const char* file; size_t line;
+    bool expect_block;     // B_REALLOC: a block must come back
     int expected;          // category expected for this step
     bool judge_poison;     // a tracked block goes back to its allocator in this step
     // observed
@@ -346,8 +452,11 @@ void b_exec(BOp* ops, int n, BSlot* slots) {      // NON-ALLOCATING interpreter 
         switch (o.kind) {
         case B_ALLOC: {
             char* p;
-            if (o.fam == F_NEW) p = (char*)(o.debug_new ? ::operator new(o.size, o.file, o.line) : ::operator new(o.size));
-            else if (o.fam == F_NEWARR) p = (char*)(o.debug_new ? ::operator new[](o.size, o.file, o.line) : ::operator new[](o.size));
+            if (o.fam == F_NEW) p = (char*)(o.form == BF_DEBUG_SIZET ? ::operator new(o.size, o.file, o.line) : o.form == BF_DEBUG_INT ? ::operator new(o.size, o.file, (int)o.line)
+                                            : o.form == BF_NOTHROW ? ::operator new(o.size, std::nothrow) : ::operator new(o.size));
+            else if (o.fam == F_NEWARR) p = (char*)(o.form == BF_DEBUG_SIZET ? ::operator new[](o.size, o.file, o.line) : o.form == BF_DEBUG_INT ? ::operator new[](o.size, o.file, (int)o.line)
+                                                    : o.form == BF_NOTHROW ? ::operator new[](o.size, std::nothrow) : ::operator new[](o.size));
+            else if (o.form == BF_NOTHROW) p = (char*)cpputest_realloc_location(NULLPTR, o.size, o.file, o.line);      // realloc(NULL, n) as an allocation
             else p = (char*)cpputest_malloc_location(o.size, o.file, o.line);
             memset(p, o.val, o.size);
             s.p = p; o.addr = p;
@@ -357,9 +466,20 @@ void b_exec(BOp* ops, int n, BSlot* slots) {      // NON-ALLOCATING interpreter 
         case B_RELEASE_LIVE: case B_RELEASE_STALE: case B_RELEASE_INTERIOR: case B_RELEASE_NULL: {
             char* a = o.kind == B_RELEASE_NULL ? NULLPTR : (o.kind == B_RELEASE_INTERIOR ? s.p + o.off : s.p);
             o.addr = a;
-            if (o.relfam == F_NEW) ::operator delete(a);
-            else if (o.relfam == F_NEWARR) ::operator delete[](a);
-            else cpputest_free_location(a, o.file, o.line);
+            if (o.relfam == F_NEW) {
+                if (o.form == BF_DEBUG_SIZET) ::operator delete(a, o.file, o.line); else if (o.form == BF_DEBUG_INT) ::operator delete(a, o.file, (int)o.line);
+                else if (o.form == BF_NOTHROW) ::operator delete(a, std::nothrow); else if (o.form == BF_SIZED) ::operator delete(a, o.size); else ::operator delete(a);
+            } else if (o.relfam == F_NEWARR) {
+                if (o.form == BF_DEBUG_SIZET) ::operator delete[](a, o.file, o.line); else if (o.form == BF_DEBUG_INT) ::operator delete[](a, o.file, (int)o.line);
+                else if (o.form == BF_NOTHROW) ::operator delete[](a, std::nothrow); else if (o.form == BF_SIZED) ::operator delete[](a, o.size); else ::operator delete[](a);
+            } else cpputest_free_location(a, o.file, o.line);
+            break; }
+        case B_REALLOC: {
+            g_realloc_inplace = o.inplace; g_realloc_fail = o.fault == 1; g_fail_record_alloc = o.fault == 2;
+            char* q = (char*)cpputest_realloc_location(s.p, o.size, o.file, o.line);
+            g_realloc_inplace = false; g_realloc_fail = false; g_fail_record_alloc = false;
+            o.addr = q;
+            if (q) { memset(q, o.val, o.size); s.p = q; }
             break; }
         default: break;
         }
@@ -380,19 +500,34 @@ int run_global(Reader& r, bool& nontrivial, std::string& desc) {
         BOp& o = ops[n]; memset(&o, 0, sizeof o);
         o.slot = (int)r.below(B_SLOTS); BSlot& s = slots[o.slot];
         o.file = FILES[r.below(3)]; o.line = r.below(200); o.expected = NONE;
-        uint32_t kind = r.below(9);        // 0-2 alloc, 3 guard/user write, 4-6 release, 7 odd release, 8 nesting depth
+        uint32_t kind = r.below(10);       // 0-2 alloc, 3 guard/user write, 4-6 release, 7 odd release, 8 nesting depth, 9 realloc of a malloc block
         if (kind == 8) {
             o.kind = B_DEPTH; depth = (int)r.below(MAXDEPTH + 1); o.size = (size_t)depth;
             text.push_back(sfmt("%d accounting wrapper(s) around the current allocators", depth));
             n++; continue;
         }
+        if (kind == 9 && !(s.live && s.fam == F_MALLOC)) kind = s.live ? 4 : 0;
+        if (kind == 9) {
+            o.kind = B_REALLOC; o.fam = o.relfam = F_MALLOC; o.inplace = r.flag();
+            switch (r.below(4)) { default: case 0: o.size = gen_size(r, 64); break; case 1: o.size = s.size; break; case 2: o.size = s.size ? r.below((uint32_t)s.size) : 0; break; case 3: o.size = s.size + 1 + r.below(16); break; }
+            o.fault = r.below(5) == 1 ? 1 + (int)r.below(2) : 0;      // 1: the platform realloc fails, 2: the new separate record cannot be allocated
+            o.val = (unsigned char)r.pick("\x00\x5a\xff\x42\xcc\xce\xcd");
+            Blk b; b.fam = s.fam; memcpy(b.guard, s.guard, 3);
+            o.expected = expect_release(&b, true, F_MALLOC);           // same family: corruption report iff a guard byte was changed
+            o.expect_block = o.fault == 0;
+            nontrivial = true;
+            text.push_back(sfmt("s%d=realloc(s%d,%zu<-%zu)%s%s -> expect %s%s", o.slot, o.slot, o.size, s.size, o.inplace ? " in place if it fits" : " moving",
+                                o.fault == 1 ? ", platform realloc fails" : o.fault == 2 ? ", record allocation fails" : "", cat_name(o.expected), o.fault ? ", NULL, block unchanged" : ""));
+            if (!o.fault) { s.size = o.size; memcpy(s.guard, "BAS", 3); }
+            n++; continue;
+        }
         if (kind <= 2 && s.live) kind = 4;
         if (kind >= 3 && kind <= 6 && !s.live) kind = s.ever && kind == 6 ? 7 : 0;
         if (kind <= 2) {
-            o.kind = B_ALLOC; o.fam = (int)r.below(3); o.size = gen_size(r, 64); o.debug_new = r.flag();
+            o.kind = B_ALLOC; o.fam = (int)r.below(3); o.size = gen_size(r, 64); o.form = (int)r.below(4);      // plain / debug (size_t line) / debug (int line) / nothrow; malloc family: nothrow = realloc(NULL, n)
             o.val = (unsigned char)r.pick("\x00\x5a\xff\x42\xcc\xce\xcd");     // fill value of the user bytes; 0xCD itself makes the poison check vacuous
             s.live = true; s.ever = true; s.size = o.size; s.fam = o.fam; s.depth = depth; memcpy(s.guard, "BAS", 3);
-            text.push_back(sfmt("s%d=%s(%zu) fill=0x%02x", o.slot, fam_name[o.fam], o.size, o.val));
+            text.push_back(sfmt("s%d=%s(%zu)%s fill=0x%02x", o.slot, fam_name[o.fam], o.size, o.fam == F_MALLOC ? (o.form == BF_NOTHROW ? " via realloc(NULL)" : "") : bform_name[o.form], o.val));
         } else if (kind == 3) {
             o.kind = B_WRITE;
             o.off = (s.size == 0 || r.chance(2, 3)) ? s.size + r.below(3) : r.below((uint32_t)s.size);
@@ -403,15 +538,16 @@ int run_global(Reader& r, bool& nontrivial, std::string& desc) {
         } else if (kind <= 6) {
             o.kind = B_RELEASE_LIVE;
             o.relfam = r.chance(3, 4) ? s.fam : (int)r.below(3);
+            o.form = (int)r.below(5);          // plain / placement (size_t line) / placement (int line) / nothrow / sized form of operator delete
             Blk b; b.fam = s.fam; memcpy(b.guard, s.guard, 3);
             o.expected = expect_release(&b, true, o.relfam);       // type checking stays on in the window (see notes/C06.md)
             o.judge_poison = true; o.size = s.size;
             if (s.fam != o.relfam) nontrivial = true;
             if (s.size >= 1) nontrivial = true;
             s.live = false; o.off = (size_t)(s.depth * 4 + depth);     // (allocation depth, release depth) for the histogram
-            text.push_back(sfmt("%s(s%d) -> expect %s + %zu poisoned bytes", fam_rel[o.relfam], o.slot, cat_name(o.expected), s.size));
+            text.push_back(sfmt("%s%s(s%d) -> expect %s + %zu poisoned bytes", fam_rel[o.relfam], o.relfam == F_MALLOC ? "" : bform_name[o.form], o.slot, cat_name(o.expected), s.size));
         } else {
-            o.relfam = (int)r.below(3);
+            o.relfam = (int)r.below(3); o.form = (int)r.below(5);
             uint32_t t = r.below(3);
             if (t == 1 && s.ever && !s.live) { o.kind = B_RELEASE_STALE; o.expected = NONALLOC; nontrivial = true; text.push_back(sfmt("%s(stale s%d) -> expect %s", fam_rel[o.relfam], o.slot, cat_name(NONALLOC))); }
             else if (t == 2 && s.live) { o.kind = B_RELEASE_INTERIOR; o.off = 1 + r.below((uint32_t)s.size + 2); o.expected = NONALLOC; nontrivial = true; text.push_back(sfmt("%s(s%d+%zu) -> expect %s", fam_rel[o.relfam], o.slot, o.off, cat_name(NONALLOC))); }
@@ -436,6 +572,7 @@ int run_global(Reader& r, bool& nontrivial, std::string& desc) {
         TestMemoryAllocator* lv[MAXDEPTH + 1][3] = {{g_raw[0][0], g_raw[1][0], g_raw[2][0]}, {&a0, &a1, &a2}, {&b0, &b1, &b2}, {&c0, &c1, &c2}};
         memcpy(g_blevel, lv, sizeof lv);
         MemoryLeakWarningPlugin::setGlobalDetector(&det, &g_rep);
+        PlatformSpecificRealloc = rec_realloc;
         b_set_depth(depth0);
         MemoryLeakWarningPlugin::turnOnDefaultNotThreadSafeNewDeleteOverloads();
         b_exec(ops, n, slots);
@@ -445,7 +582,14 @@ int run_global(Reader& r, bool& nontrivial, std::string& desc) {
     for (int i = 0; i < n; i++) {
         BOp& o = ops[i];
         const char* w = text[i].c_str();
-        verif::cls(o.kind == B_ALLOC ? "B:alloc" : o.kind == B_WRITE ? "B:write" : o.kind == B_RELEASE_LIVE ? "B:release-live" : o.kind == B_DEPTH ? "B:depth-change" : "B:release-odd");
+        verif::cls(o.kind == B_ALLOC ? "B:alloc" : o.kind == B_WRITE ? "B:write" : o.kind == B_RELEASE_LIVE ? "B:release-live" : o.kind == B_DEPTH ? "B:depth-change" : o.kind == B_REALLOC ? "B:realloc" : "B:release-odd");
+        if (o.kind == B_ALLOC && o.fam != F_MALLOC) verif::cls(sfmt("B:operator-new-form%s", o.form ? bform_name[o.form] : " plain").c_str());
+        if (o.kind == B_ALLOC && o.fam == F_MALLOC && o.form == BF_NOTHROW) verif::cls("B:realloc(NULL)-as-allocation");
+        if ((o.kind == B_RELEASE_LIVE || o.kind == B_RELEASE_NULL || o.kind == B_RELEASE_STALE || o.kind == B_RELEASE_INTERIOR) && o.relfam != F_MALLOC) verif::cls(sfmt("B:operator-delete-form%s", o.form ? bform_name[o.form] : " plain").c_str());
+        if (o.kind == B_REALLOC) {
+            if (o.fault) verif::cls(o.fault == 1 ? "B:realloc-platform-realloc-fails" : "B:realloc-record-allocation-fails");
+            V_CHECK((o.addr != NULLPTR) == o.expect_block, "C06:realloc-result", "step %d %s: returned %s", i + 1, w, o.addr ? "a block" : "NULL");
+        }
         if (o.kind == B_RELEASE_LIVE) {
             int da = (int)o.off / 4, dr = (int)o.off % 4;
             if (da != dr) verif::cls("B:release-at-other-nesting-depth-than-allocation");
@@ -467,7 +611,7 @@ int run_global(Reader& r, bool& nontrivial, std::string& desc) {
                     "step %d %s: when the memory was returned only the first %zu of %zu user bytes had been overwritten with 0xCD (byte %zu = 0x%02x)",
                     i + 1, w, ev->cd_prefix, o.size, ev->cd_prefix, (unsigned char)o.addr[ev->cd_prefix]);
             verif::cls(o.size ? "B:poison-judged" : "B:poison-judged-size-0");
-        } else if (o.kind != B_ALLOC && o.kind != B_WRITE && o.kind != B_DEPTH) {
+        } else if (o.kind != B_ALLOC && o.kind != B_WRITE && o.kind != B_DEPTH && o.kind != B_REALLOC) {
             V_CHECK(handed == 0, "C06:non-outstanding-address-released-to-allocator", "step %d %s: address was passed on to the allocator", i + 1, w);
         }
     }
@@ -489,6 +633,7 @@ extern "C" void verif_init(void) {
     g_saved_detector = MemoryLeakWarningPlugin::getGlobalDetector();
     g_saved_reporter = MemoryLeakWarningPlugin::getGlobalFailureReporter();
     g_foreign = (char*)::malloc(64);
+    g_saved_platform_realloc = PlatformSpecificRealloc;
 }
 extern "C" int verif_case(const uint8_t* data, size_t size) {
     Reader r(data, size);
